@@ -65,7 +65,15 @@ pub fn judge_line(
     if !e.strict {
         // filler: safety only
         rep.judged_weak += 1;
-        if obs.is_ai() && !e.writers.contains(&obs) {
+        if obs.is_ai()
+            && !e.writers.contains(&obs)
+            && w.model.del_neighbors.get(&key_of(content)).map(|d| d.contains(&obs)).unwrap_or(false)
+        {
+            rep.violate(
+                format!("{pid}:line-adjacent-to-deletion-attributed-to-deleter"),
+                format!("{ctx}: {source} filler {path}:{lineno} {content:?} adjacent to a whole-line deletion by {}, reported {}", fmt_actor(obs), fmt_actor(obs)),
+            );
+        } else if obs.is_ai() && !e.writers.contains(&obs) {
             rep.violate(
                 format!("{pid}:filler-attributed-to-non-writer"),
                 format!("{ctx}: {source} attributes filler {path}:{lineno} {content:?} to {} which never wrote such a line", fmt_actor(obs)),
@@ -107,6 +115,20 @@ pub fn judge_line(
             format!(
                 "{ctx}: {source} {path}:{lineno} {content:?}: last substantive change was a pure intra-line deletion by {}, reported {}",
                 fmt_actor(e.last),
+                fmt_actor(obs)
+            ),
+        );
+        return;
+    }
+    if w.model.del_neighbors.get(&key_of(content)).map(|d| d.contains(&obs)).unwrap_or(false) {
+        // F25: a whole-line deletion leaves a zero-length marker that makes the
+        // deleter the author of the unchanged neighbouring line
+        rep.violate(
+            format!("{pid}:line-adjacent-to-deletion-attributed-to-deleter"),
+            format!(
+                "{ctx}: {source} {path}:{lineno} {content:?}: owner {}, adjacent to a whole-line deletion by {}, reported {}",
+                fmt_actor(e.last),
+                fmt_actor(obs),
                 fmt_actor(obs)
             ),
         );
